@@ -702,6 +702,135 @@ Proof.
     + intros a b. eapply ipcp_unacceptable; [exact Hk|exact Hv|discriminate].
 Qed.
 
+(* ---------------------------------------------------------------------- what the ghost fields mean, in observables *)
+Section Ghost.
+  Context {X : Type}.
+  Variable P : procs X.
+
+  Definition is_rca_match (s : fsm X) (e : ev) : bool :=
+    match e with
+    | ERecv d => match parse_pkt d with Some (c, i, _) => (c =? 2) && (i =? f_last s) | None => false end
+    | _ => false
+    end.
+  Definition sends_cr (pk : list pkt) : bool := existsb (fun p => pc p =? 1) pk.
+  (* the identifier of a well-formed Configure-Request, if the event is one *)
+  Definition rcr_id (e : ev) : option N :=
+    match e with
+    | ERecv d => match parse_pkt d with
+                 | Some (c, i, data) => if c =? 1 then match parse_opts data with Some _ => Some i | None => None end else None
+                 | None => None
+                 end
+    | _ => None
+    end.
+
+  Ltac ds s := destruct s as [st0 x0 rc0 id0 last0 arm0 tok0 pend0 we0 peer0].
+  Ltac gfin H := cbn in H |- *; rewrite ?N.eqb_refl; cbn; try discriminate; try (split; [reflexivity|]); auto.
+
+  (* g_peer after a step: no Configure-Request left in this step, and it held before or this step
+     received a Configure-Ack carrying the identifier of our latest request *)
+  Theorem g_peer_meaning s e :
+    g_peer (next P s e) = true ->
+    sends_cr (sent P s e) = false /\ (g_peer s = true \/ is_rca_match s e = true).
+  Proof.
+    rewrite next_tr, sent_tr. unfold tr_m, trans, sends_cr. intros H.
+    destruct e as [| | | |d|t|].
+    - ds s. unfold do_up in *. destruct st0; gfin H.
+    - ds s. unfold do_down in *. destruct st0; gfin H.
+    - ds s. unfold do_open in *. destruct st0; gfin H.
+    - ds s. unfold close_internal in *. destruct st0; gfin H.
+    - unfold do_recv, is_rca_match in *. destruct (parse_pkt d) as [[[c i] data]|]; [|gfin H].
+      destruct (c =? 1) eqn:E1.
+      { destruct (parse_opts data) as [opts|]; [|gfin H].
+        unfold do_rcr in *. cbn [fst snd] in *.
+        destruct (pr_cr P (f_x s) opts) as [[x' [[ack nak] rej]] mk].
+        cbn [fst snd] in *. ds s.
+        destruct (nonempty rej); [|destruct (nonempty nak)]; destruct st0; gfin H. }
+      destruct (c =? 2) eqn:E2.
+      { unfold do_rca in *. cbn [fst snd] in *. destruct (i =? f_last s) eqn:Ei; cbn [negb] in *; [|gfin H].
+        ds s. destruct st0; gfin H. }
+      destruct (c =? 3) eqn:E3.
+      { unfold do_rcn in *. cbn [fst snd] in *. destruct (i =? f_last s); cbn [negb] in *; [|gfin H].
+        ds s. unfold nakrej_tail in *.
+        destruct (parse_opts data); [|destruct (pr_nak_strict P)]; destruct st0; gfin H. }
+      destruct (c =? 4) eqn:E4.
+      { unfold do_rcj in *. cbn [fst snd] in *. destruct (i =? f_last s); cbn [negb] in *; [|gfin H].
+        ds s. unfold nakrej_tail in *.
+        destruct (parse_opts data); [|destruct (pr_rej_strict P)]; destruct st0; gfin H. }
+      destruct (c =? 5) eqn:E5.
+      { ds s. unfold do_rtr in *. destruct st0; gfin H. }
+      destruct (c =? 6) eqn:E6.
+      { ds s. unfold do_rta in *. destruct st0; gfin H. }
+      destruct (pr_lcp P); [|gfin H].
+      unfold do_lcp_other in *. cbn [fst snd] in *.
+      destruct (c =? 7).
+      { destruct data as [|r tl]; [gfin H|]. destruct ((1 <=? r) && (r <=? 4)); [|gfin H].
+        ds s. unfold close_internal in *. destruct st0; gfin H. }
+      destruct (c =? 8).
+      { destruct data as [|a [|b tl]]; try (gfin H; fail). destruct (be16 a b =? 49185); [|gfin H].
+        ds s. unfold close_internal in *. destruct st0; gfin H. }
+      destruct (c =? 9).
+      { ds s. destruct st0; destruct (len data <? 4); gfin H. }
+      destruct ((c =? 10) || (c =? 11)); gfin H.
+    - destruct (memN t (f_pend s)); [|gfin H].
+      ds s. unfold do_timeout in *. cbn [fst snd f_rc f_st] in *. destruct (0 <? rc0)%Z; destruct st0; gfin H.
+    - ds s. unfold do_echo in *. destruct st0; destruct (pr_lcp P); gfin H.
+  Qed.
+
+  (* g_we after a step: this step answered a well-formed Configure-Request with a Configure-Ack
+     carrying its identifier, or the step was no Configure-Request and it held before *)
+  Theorem g_we_meaning s e :
+    g_we (next P s e) = true ->
+    match rcr_id e with
+    | Some i => existsb (fun p => (pc p =? 2) && (pi p =? i)) (sent P s e) = true
+    | None => g_we s = true
+    end.
+  Proof.
+    rewrite next_tr, sent_tr. unfold tr_m, trans, rcr_id. intros H.
+    destruct e as [| | | |d|t|].
+    - ds s. unfold do_up in *. destruct st0; gfin H.
+    - ds s. unfold do_down in *. destruct st0; gfin H.
+    - ds s. unfold do_open in *. destruct st0; gfin H.
+    - ds s. unfold close_internal in *. destruct st0; gfin H.
+    - unfold do_recv in *. destruct (parse_pkt d) as [[[c i] data]|]; [|gfin H].
+      destruct (c =? 1) eqn:E1.
+      { destruct (parse_opts data) as [opts|]; [|gfin H].
+        unfold do_rcr in *. cbn [fst snd] in *.
+        destruct (pr_cr P (f_x s) opts) as [[x' [[ack nak] rej]] mk].
+        cbn [fst snd] in *. ds s.
+        destruct (nonempty rej); [|destruct (nonempty nak)]; destruct st0; gfin H. }
+      destruct (c =? 2) eqn:E2.
+      { unfold do_rca in *. cbn [fst snd] in *. destruct (i =? f_last s) eqn:Ei; cbn [negb] in *; [|gfin H].
+        ds s. destruct st0; gfin H. }
+      destruct (c =? 3) eqn:E3.
+      { unfold do_rcn in *. cbn [fst snd] in *. destruct (i =? f_last s); cbn [negb] in *; [|gfin H].
+        ds s. unfold nakrej_tail in *.
+        destruct (parse_opts data); [|destruct (pr_nak_strict P)]; destruct st0; gfin H. }
+      destruct (c =? 4) eqn:E4.
+      { unfold do_rcj in *. cbn [fst snd] in *. destruct (i =? f_last s); cbn [negb] in *; [|gfin H].
+        ds s. unfold nakrej_tail in *.
+        destruct (parse_opts data); [|destruct (pr_rej_strict P)]; destruct st0; gfin H. }
+      destruct (c =? 5) eqn:E5.
+      { ds s. unfold do_rtr in *. destruct st0; gfin H. }
+      destruct (c =? 6) eqn:E6.
+      { ds s. unfold do_rta in *. destruct st0; gfin H. }
+      destruct (pr_lcp P); [|gfin H].
+      unfold do_lcp_other in *. cbn [fst snd] in *.
+      destruct (c =? 7).
+      { destruct data as [|r tl]; [gfin H|]. destruct ((1 <=? r) && (r <=? 4)); [|gfin H].
+        ds s. unfold close_internal in *. destruct st0; gfin H. }
+      destruct (c =? 8).
+      { destruct data as [|a [|b tl]]; try (gfin H; fail). destruct (be16 a b =? 49185); [|gfin H].
+        ds s. unfold close_internal in *. destruct st0; gfin H. }
+      destruct (c =? 9).
+      { ds s. destruct st0; destruct (len data <? 4); gfin H. }
+      destruct ((c =? 10) || (c =? 11)); gfin H.
+    - destruct (memN t (f_pend s)); [|gfin H].
+      ds s. unfold do_timeout in *. cbn [fst snd f_rc f_st] in *. destruct (0 <? rc0)%Z; destruct st0; gfin H.
+    - ds s. unfold do_echo in *. destruct st0; destruct (pr_lcp P); gfin H.
+  Qed.
+
+End Ghost.
+
 (* ---------------------------------------------------------------------- statements refuted on the Model *)
 (* T6' in full: whatever happened before, once the peer falls silent the automaton reaches a state
    that needs no timer *)
@@ -747,7 +876,7 @@ Proof.
 Qed.
 
 (* ---------------------------------------------------------------------- non-vacuity *)
-Definition rcr_lcp : ev := ERecv [1;7;0;8;1;4;5;220].
+Definition rcr_lcp : ev := ERecv [1;7;0;8;1;4;5;212].
 Example ex_opened_reachable :
   f_st (run lcp_procs (init lx0) [EOpen; EUp; rcr_lcp; ERecv [2;1;0;4]]) = Opened.
 Proof. vm_compute. reflexivity. Qed.
@@ -764,7 +893,7 @@ Example ex_leaving_event :
 Proof. vm_compute. split; reflexivity. Qed.
 Example ex_silent_peer :
   let s1 := run lcp_procs (init lx0) [EOpen; EUp] in
-  f_st (silent lcp_procs 3 s1) = Stopped /\ count_req lcp_procs (silent_sent lcp_procs 3 s1) = 2%nat.
+  f_st (silent lcp_procs 3 s1) = Stopped /\ count_req (silent_sent lcp_procs 3 s1) = 2%nat.
 Proof. vm_compute. split; reflexivity. Qed.
 Example ex_live_state : live (run v6_procs (init vx0) [EOpen; EUp; ERecv [3;1;0;4]]) = true.
 Proof. vm_compute. reflexivity. Qed.
